@@ -15,7 +15,7 @@ from ..fa import FA
 from ..loader import AnalysisError
 from .valeq import check_typed_identity, check_json_bytes, check_enum_distinct
 from .ladders import extract_ladder, check_ladder_order, repo_subclass_pairs
-from .fresh import flow_nodes, alternatives, value_cases, param_rooted, return_cases, at_of, attr_writes, guarded_cases
+from .fresh import flow_nodes, alternatives, value_cases, param_rooted, return_cases, at_of, attr_writes, guarded_cases, static_value as _static
 
 MC = "serialization.MementoCodec"
 
@@ -90,11 +90,42 @@ def _emitted(fa: FA):
                     return None
                 out.setdefault(k, []).append((v, a_))
         if isinstance(r.value, ast.Name):
-            for st in fa.stmts(ast.Assign):
-                for t in st.targets:
-                    if isinstance(t, ast.Subscript) and isinstance(t.value, ast.Name) and t.value.id == r.value.id and A.const_str(t.slice) and fa.nodes(st):
-                        out.setdefault(A.const_str(t.slice), []).append((st.value, fa.nodes(st)[0]))
+            for (k, v, a_) in _entries_put_into(fa, r.value.id):
+                out.setdefault(k, []).append((v, a_))
     return out if found else None
+
+
+def _entries_put_into(fa: FA, name: str):
+    """[(key, value expr, cfg node)]: entries statements put into the dict held by local `name` after it was bound:
+    `name['k'] = v`, `name.update({'k': v})`, `name.update(k=v)`, `name |= {'k': v}`, `name.setdefault('k', v)`."""
+    out = []
+    for st in fa.stmts((ast.Assign, ast.AugAssign, ast.Expr)):
+        if not fa.nodes(st):
+            continue
+        at = fa.nodes(st)[0]
+        if isinstance(st, ast.Assign):
+            for t in st.targets:
+                if isinstance(t, ast.Subscript) and isinstance(t.value, ast.Name) and t.value.id == name and A.const_str(t.slice):
+                    out.append((A.const_str(t.slice), st.value, at))
+        elif isinstance(st, ast.AugAssign):
+            if isinstance(st.target, ast.Name) and st.target.id == name and isinstance(st.op, ast.BitOr):
+                for (alt, a_) in alternatives(fa, st.value, at):
+                    for (k, v) in (_dict_items(alt) or []):
+                        if k is not None:
+                            out.append((k, v, a_))
+        elif isinstance(st.value, ast.Call) and isinstance(st.value.func, ast.Attribute) and isinstance(st.value.func.value, ast.Name) \
+                and st.value.func.value.id == name:
+            c = st.value
+            if c.func.attr == "update":
+                for a in c.args:
+                    for (alt, a_) in alternatives(fa, a, at):
+                        for (k, v) in (_dict_items(alt) or []):
+                            if k is not None:
+                                out.append((k, v, a_))
+                out += [(k.arg, k.value, at) for k in c.keywords if k.arg is not None]
+            elif c.func.attr == "setdefault" and len(c.args) == 2 and A.const_str(c.args[0]):
+                out.append((A.const_str(c.args[0]), c.args[1], at))
+    return out
 
 
 def _state_key_of(fa: FA, n, at, param):
@@ -102,8 +133,14 @@ def _state_key_of(fa: FA, n, at, param):
     base = key = None
     if isinstance(n, ast.Subscript) and A.const_str(n.slice):
         base, key = n.value, A.const_str(n.slice)
-    elif isinstance(n, ast.Call) and A.call_attr(n) == "get" and n.args and A.const_str(n.args[0]) and isinstance(n.func, ast.Attribute):
+    elif isinstance(n, ast.Call) and A.call_attr(n) in ("get", "__getitem__") and n.args and A.const_str(n.args[0]) and isinstance(n.func, ast.Attribute):
         base, key = n.func.value, A.const_str(n.args[0])
+    if key is None and isinstance(n, ast.Call) and isinstance(n.func, ast.Name) and at is not None and len(n.args) >= 1 and A.const_str(n.args[0]) \
+            and fa.df.is_local(n.func.id):
+        # read = state.__getitem__ / state.get ... read('k')
+        acc = fa.expand(n.func, at)
+        if isinstance(acc, ast.Attribute) and acc.attr in ("get", "__getitem__"):
+            base, key = acc.value, A.const_str(n.args[0])
     if key is None or not isinstance(base, ast.Name):
         return None
     if base.id == param or (at is not None and param_rooted(fa, base, at, param)):
@@ -142,13 +179,30 @@ def _attrs_in_flow(fa: FA, expr, at, param):
     return out
 
 
+def _mapped_over(n, name):
+    """`map(<...>.name, xs)` -> xs : the function is applied to every element of ONE iterable; else None."""
+    if isinstance(n, ast.Call) and isinstance(n.func, ast.Name) and n.func.id == "map" and len(n.args) == 2 and not n.keywords:
+        f = n.args[0]
+        if (isinstance(f, ast.Attribute) and f.attr == name) or (isinstance(f, ast.Name) and f.id == name):
+            return n.args[1]
+    return None
+
+
 def _calls_in_flow(fa: FA, expr, at, name):
-    return [n for (n, a_) in flow_nodes(fa, expr, at) if isinstance(n, ast.Call) and A.call_attr(n) == name]
+    """Applications of the function `name` the value is computed from: direct calls and map(name, xs)."""
+    return [n for (n, a_) in flow_nodes(fa, expr, at) if isinstance(n, ast.Call) and (A.call_attr(n) == name or _mapped_over(n, name) is not None)]
 
 
 def _ctor_params(ck, cls_qual):
     cls = ck.repo.cls(cls_qual)
     init = ck.repo.find_method(cls, "__init__")
+    if init is None:
+        # a class whose constructor is generated from its annotated fields (@dataclass, typing.NamedTuple)
+        generated = any("dataclass" in A.norm(d) for d in cls.node.decorator_list) or any(A.norm(b).split(".")[-1] == "NamedTuple" for b in cls.node.bases)
+        fields = [st.target.id for st in cls.node.body if isinstance(st, ast.AnnAssign) and isinstance(st.target, ast.Name)
+                  and "ClassVar" not in A.norm(st.annotation)]
+        if generated and fields:
+            return fields
     ck.need(init is not None, "%s.__init__ not found" % cls_qual)
     return [p for p in init.params if p != "self"]
 
@@ -166,6 +220,31 @@ def _call_args(call, params):
     return out
 
 
+def _bound_args(fa: FA, call, params):
+    """{callee parameter: (value expr, cfg node where it is evaluated)} of a call: positional arguments mapped through
+    the callee's parameter list, keywords, and a `**fields` whose value is ONE dict built in this function (a literal /
+    dict(...) call, plus the entries stored into it afterwards).  None when the binding cannot be told."""
+    at = at_of(fa, call)
+    plain = ast.Call(func=call.func, args=call.args, keywords=[k for k in call.keywords if k.arg is not None])
+    base = _call_args(plain, params)
+    if base is None:
+        return None
+    out = {p: (v, at) for p, v in base.items()}
+    for k in call.keywords:
+        if k.arg is not None:
+            continue
+        alts = alternatives(fa, k.value, at)
+        items = _dict_items(alts[0][0]) if len(alts) == 1 else None
+        if items is None or any(key is None for key, _ in items):
+            return None
+        for key, v in items:
+            out[key] = (v, alts[0][1])
+        if isinstance(k.value, ast.Name):
+            for (key, v, a_) in _entries_put_into(fa, k.value.id):
+                out[key] = (v, a_)
+    return out
+
+
 def _is_chain(fa: FA, e, at, param, attrs) -> bool:
     """e is <param>.<attrs...> (param possibly through an alias)."""
     for a in reversed(attrs):
@@ -173,6 +252,29 @@ def _is_chain(fa: FA, e, at, param, attrs) -> bool:
             return False
         e = e.value
     return isinstance(e, ast.Name) and (e.id == param or param_rooted(fa, e, at, param))
+
+
+def _check_field_correspondence(ck, R, enc: FA, emitted, dec: FA, site, fed_from, what):
+    """A wire field carries ONE attribute of the object; the decoder hands the field back to the constructor parameter of
+    that very attribute.  (Each side may be complete on its own — every field written, every parameter fed from exactly
+    one field — and the pair still not round-trip: `kwargs` restored from the field `contextArgs` was written from.)"""
+    obj = _first_param(enc, "obj")
+    attrs_of = {}
+    for k, vals in emitted.items():
+        for (v, a_) in vals:
+            attrs_of.setdefault(k, set()).update(_attrs_in_flow(enc, v, a_, obj))
+    for p, ks in sorted(fed_from.items()):
+        if p is None or len(ks) != 1:
+            continue
+        k = next(iter(ks))
+        attrs = attrs_of.get(k) or set()
+        if not attrs:
+            continue  # (the encoder's reads are accounted for by reads-all-fields)
+        ok = any(a.lstrip("_") == p.lstrip("_") for a in attrs)
+        ck.ob(R, dec.key(site, "field-matches:" + p), ok, "%s comes back from the field %r it was written to" % (p, k) if ok else
+              "%s is rebuilt with %s taken from the field %r, but %s writes %s there: after a round trip %s holds another "
+              "attribute's value (the decoded memento is not equivalent, its argument hash differs)"
+              % (what, p, k, enc.fi.name, "/".join("%s.%s" % (obj, a) for a in sorted(attrs)), p), dec.where(site))
 
 
 # ---- versioned content keys -----------------------------------------------------------------------------
@@ -191,6 +293,31 @@ def _none_cases(fa: FA, what):
     return _simplify(none_conds), others
 
 
+def _template(e):
+    """A.str_template, also for `'<sep>'.join((a, b, ...))` over a literal sequence and str(x) wrappers of the parts."""
+    if isinstance(e, ast.Call) and A.call_attr(e) == "join" and isinstance(e.func, ast.Attribute) and A.const_str(e.func.value) is not None \
+            and len(e.args) == 1 and not e.keywords and isinstance(e.args[0], (ast.List, ast.Tuple)) and e.args[0].elts \
+            and not any(isinstance(x, ast.Starred) for x in e.args[0].elts):
+        sep = A.const_str(e.func.value).replace("{", "{{").replace("}", "}}")
+        return sep.join("{}" for _ in e.args[0].elts), list(e.args[0].elts)
+    return A.str_template(e)
+
+
+def _int_const(n):
+    """The integer a constant expression denotes: a literal, or len('<literal>')."""
+    if isinstance(n, ast.Constant) and isinstance(n.value, int) and not isinstance(n.value, bool):
+        return n.value
+    if isinstance(n, ast.Call) and isinstance(n.func, ast.Name) and n.func.id == "len" and len(n.args) == 1 and A.const_str(n.args[0]) is not None:
+        return len(A.const_str(n.args[0]))
+    return None
+
+
+def _once(c):
+    """Is the split call limited to ONE cut: rsplit(sep, 1) / rsplit(sep, maxsplit=1)?"""
+    mx = c.args[1] if len(c.args) == 2 else A.kwarg(c, "maxsplit") if len(c.args) == 1 else None
+    return mx is not None and _int_const(mx) == 1
+
+
 def _last_cut(dv: FA, e, at, param, sep):
     """Which side of the LAST `sep` of the parameter string does `e` denote: 'before' / 'after' / None."""
     x = dv.expand(e, at)
@@ -204,12 +331,12 @@ def _last_cut(dv: FA, e, at, param, sep):
 
     if isinstance(x, ast.Subscript) and is_state(x.value) and isinstance(x.slice, ast.Slice) and x.slice.step is None:
         lo, up = x.slice.lower, x.slice.upper
-        if (lo is None or (isinstance(lo, ast.Constant) and lo.value == 0)) and up is not None and is_rfind(up):
+        if (lo is None or _int_const(lo) == 0) and up is not None and is_rfind(up):
             return "before"
         if up is None and isinstance(lo, ast.BinOp) and isinstance(lo.op, ast.Add):
             a_, b_ = lo.left, lo.right
             n = len(sep)
-            if (is_rfind(a_) and isinstance(b_, ast.Constant) and b_.value == n) or (is_rfind(b_) and isinstance(a_, ast.Constant) and a_.value == n):
+            if (is_rfind(a_) and _int_const(b_) == n) or (is_rfind(b_) and _int_const(a_) == n):
                 return "after"
     # state.rpartition(sep)[0] / [2] ; state.rsplit(sep, 1)[0] / [1]
     if isinstance(x, ast.Subscript) and isinstance(x.value, ast.Call) and isinstance(x.value.func, ast.Attribute) and is_state(x.value.func.value) \
@@ -217,7 +344,7 @@ def _last_cut(dv: FA, e, at, param, sep):
         c = x.value
         if c.func.attr == "rpartition" and len(c.args) == 1:
             return {0: "before", 2: "after", -1: "after"}.get(x.slice.value)
-        if c.func.attr == "rsplit" and len(c.args) == 2 and A.norm(c.args[1]) == "1":
+        if c.func.attr == "rsplit" and _once(c):
             return {0: "before", 1: "after", -1: "after"}.get(x.slice.value)
     # key, _, version = state.rpartition(sep)
     if isinstance(e, ast.Name):
@@ -229,7 +356,7 @@ def _last_cut(dv: FA, e, at, param, sep):
                 i = names.index(e.id)
                 if c.func.attr == "rpartition" and len(c.args) == 1 and len(names) == 3:
                     return {0: "before", 2: "after"}.get(i)
-                if c.func.attr == "rsplit" and len(c.args) == 2 and A.norm(c.args[1]) == "1" and len(names) == 2:
+                if c.func.attr == "rsplit" and _once(c) and len(names) == 2:
                     return {0: "before", 1: "after"}.get(i)
     return None
 
@@ -244,7 +371,7 @@ def check_versioned_key_codec(ck, R4):
     # join: every non-None result is <key> '#' <version> of the parameter
     ok4 = bool(e_vals)
     for (v, at) in e_vals:
-        tm = A.str_template(ev.expand(v, at))
+        tm = _template(ev.expand(v, at))
         ok4 = ok4 and tm is not None and tm[0] == "{}#{}" and len(tm[1]) == 2 and _is_chain(ev, tm[1][0], at, ep, ["key"]) and _is_chain(ev, tm[1][1], at, ep, ["version"])
     ck.ob(R4, ev.key(None, "join"), ok4, "key#version" if ok4 else "versioned keys are not written as '{}#{}'.format(key, version)", ev.where())
     # split: every non-None result is VersionedDataSourceKey(key=<before the last '#'>, version=<after it>)
@@ -280,10 +407,9 @@ def check_reference_resolved_afresh(ck, R):
     cparams = [p for p in callee.params if p not in ("self", "cls")] if callee is not None else []
     for c in df.calls("from_qualified_name"):
         want = {"qualified_name": "qualifiedName", "partial_args": "partialArgs", "partial_kwargs": "partialKwargs", "parameter_names": "parameterNames"}
-        given = _call_args(c, cparams) or {k.arg: k.value for k in c.keywords if k.arg}
-        at = at_of(df, c)
+        given = _bound_args(df, c, cparams) or {k.arg: (k.value, at_of(df, c)) for k in c.keywords if k.arg}
         for kw, field in want.items():
-            v = given.get(kw)
+            v, at = given.get(kw, (None, None))
             ok = v is not None and field in _keys_in_flow(df, v, at)
             ck.ob(R, df.key(c, "state-field:" + field), ok, "%s is taken from state['%s']" % (kw, field) if ok else
                   "from_qualified_name is not given %s from state['%s']" % (kw, field), df.where(c))
@@ -314,6 +440,10 @@ def check_decoders_pure(ck, R):
             calls = _calls_in_flow(di, v, at, "decode_fn_reference_with_args")
             ok = bool(calls)
             for c in calls:
+                xs = _mapped_over(c, "decode_fn_reference_with_args")
+                if xs is not None:
+                    ok = ok and "invocations" in _keys_in_flow(di, xs, at_of(di, c))
+                    continue
                 elem = c.args[0] if len(c.args) == 1 and not c.keywords else None
                 per_element = False
                 if isinstance(elem, ast.Name):
@@ -348,36 +478,25 @@ def _site_args(fa: FA, call, params):
 
 
 def _carried(fa: FA, value, at, param):
-    """Does the value handed on at a site carry what the function received as `param`: every value it may
-    hold is computed from the parameter, except stand-ins used only where the parameter is absent (None / empty).
+    """Does the value handed on at a site carry what the function received as `param`: on every path to the site the
+    value it holds there is computed from the parameter, except stand-ins used only where the parameter is absent
+    (None / empty) — whether the stand-in is chosen by a conditional expression, `param or default`, an if/else, or a
+    default assigned first and overridden where the parameter is present.
     -> (ok, the offending case or None)"""
-    absent = {("%s is None" % param, True), (param, False)}
+    from .fresh import path_cases
+    absent = {("%s is None" % param, True), (param, False), ("len(%s) == 0" % param, True), ("0 == len(%s)" % param, True)}
+    cases = path_cases(fa, value, at, also=(param,))
+    if cases is None:
+        raise AnalysisError("%s: too many paths to tell what `%s` holds" % (fa.qual, A.short(value, 40)))
     derived = 0
-    memo = {}
-
-    def only_when_absent(node_id):
-        """Is the cfg node reached only where the parameter is absent?"""
-        if node_id not in memo:
-            conds = fa.conditions(node_id)
-            if conds is None:
-                raise AnalysisError("%s: too many paths to tell when `%s` is used" % (fa.qual, A.short(value, 40)))
-            memo[node_id] = bool(conds) and all(c & absent for c in conds)
-        return memo[node_id]
-
-    for (case, a_, lits) in guarded_cases(fa, value, at):
-        if case[0] == "param":
-            if case[1] == param:
-                derived += 1
-                continue
-            dep = False
-        else:
-            dep = ("param:" + param) in fa.df.deps(case[1], a_)
-        if dep:
+    for (v, a_, conds) in cases:
+        if (isinstance(v, ast.Name) and v.id == param and all(d.kind == "param" for d in fa.df.reaching(a_, v.id))) \
+                or ("param:" + param) in fa.df.deps(v, a_):
             derived += 1
             continue
-        if set(lits) & absent or only_when_absent(at) or (a_ != at and only_when_absent(a_)):
+        if conds and all(c & absent for c in conds):
             continue
-        return False, (case[1] if case[0] == "expr" else ast.Name(id=case[1], ctx=ast.Load()))
+        return False, v
     return derived > 0, None
 
 
@@ -455,35 +574,6 @@ def check_reference_fields_carried(ck, R):
 
 
 # ---- argument tags ----------------------------------------------------------------------------------------
-def _static(fa: FA, e, at, depth=0):
-    """The literal a table name denotes: a local bound once, a module-level NAME = <literal>, a class-level
-    attribute read as cls.NAME / self.NAME / <Class>.NAME; wrappers tuple(..) / list(..) / frozenset(..) / set(..) /
-    dict(..) of one literal are looked through.  Anything else is returned as it is."""
-    if depth > 6 or e is None:
-        return e
-    if isinstance(e, ast.Name):
-        if fa.df.is_local(e.id):
-            ds = fa.df.reaching(at, e.id) if at is not None else []
-            if len(ds) == 1 and ds[0].kind == "assign" and ds[0].value is not None:
-                return _static(fa, ds[0].value, ds[0].node, depth + 1)
-            return e
-        v = fa.fi.module.assigns.get(e.id)
-        return _static(fa, v, None, depth + 1) if v is not None else e
-    if isinstance(e, ast.Attribute) and isinstance(e.value, ast.Name):
-        cls = getattr(fa.fi, "cls", None)
-        cnode = getattr(cls, "node", None)
-        if cnode is not None and (e.value.id in ("cls", "self") or e.value.id == cnode.name):
-            for st in cnode.body:
-                if isinstance(st, ast.Assign) and any(isinstance(t, ast.Name) and t.id == e.attr for t in st.targets):
-                    return _static(fa, st.value, None, depth + 1)
-                if isinstance(st, ast.AnnAssign) and isinstance(st.target, ast.Name) and st.target.id == e.attr and st.value is not None:
-                    return _static(fa, st.value, None, depth + 1)
-        return e
-    if isinstance(e, ast.Call) and isinstance(e.func, ast.Name) and e.func.id in ("tuple", "list", "frozenset", "set", "dict", "OrderedDict") and len(e.args) == 1 and not e.keywords:
-        return _static(fa, e.args[0], at, depth + 1)
-    return e
-
-
 def _elements(fa: FA, e, at):
     """Members of a literal collection (keys for a dict, also through .keys()); None when it is not one."""
     if isinstance(e, ast.Call) and A.call_attr(e) == "keys" and not e.args and isinstance(e.func, ast.Attribute):
@@ -558,16 +648,142 @@ def _name_values(fa: FA, name: ast.Name, at):
     return out
 
 
+def _helper_results(fa: FA, e):
+    """(FA of the helper, [(returned expr, cfg node)]) when `e` is a call of ONE function of this repository that
+    could not be written out at the call site (say, because it returns from inside a loop): what the call may
+    evaluate to is what the helper returns.  None for anything else."""
+    if not isinstance(e, ast.Call):
+        return None
+    try:
+        cands, how = fa.ck.cg.resolve(e, fa.fi)
+    except Exception:  # noqa
+        return None
+    if how not in ("typed", "module", "nested") or len(cands) != 1 or cands[0] is fa.fi:
+        return None
+    h = FA(fa.ck, cands[0])
+    out = [(r.value, h.nodes(r)[0]) for r in h.returns() if r.value is not None and h.nodes(r)]
+    return (h, out) if out else None
+
+
+def _unrolled(fa: FA) -> FA:
+    """The function with every loop over a LITERAL table written out row by row (`for typ, kind in ((bool, B), (str, S)): if
+    isinstance(obj, typ): return ...` becomes the if-chain it stands for), so that a table-driven dispatch is decided like
+    the ladder it replaces.  A loop is written out when its rows are known, its variables are not reassigned in the body
+    and it leaves early only by `return` / `raise` — or its body is one `if <test>: ...; break`, which becomes an elif chain.
+    Returns `fa` itself when there is nothing to write out."""
+    import copy
+    from ..loader import FuncInfo
+    changed = [False]
+
+    def own_jumps(stmts):
+        out = []
+        for st in stmts:
+            for n in ast.walk(st) if not isinstance(st, (ast.For, ast.While, ast.AsyncFor)) else []:
+                if isinstance(n, (ast.Break, ast.Continue)):
+                    out.append(n)
+        return out
+
+    def rows_of(loop):
+        ids = fa.nodes(loop.iter) or fa.nodes(loop)
+        if not ids or loop.orelse:
+            return None
+        tg = loop.target
+        if isinstance(tg, ast.Name):
+            it = _static(fa, loop.iter, ids[0])
+            if isinstance(it, (ast.Tuple, ast.List)) and it is not None and not any(isinstance(x, ast.Starred) for x in it.elts):
+                return [tg.id], [[x] for x in it.elts]
+            return None
+        if not (isinstance(tg, (ast.Tuple, ast.List)) and all(isinstance(t, ast.Name) for t in tg.elts)):
+            return None
+        rows = _literal_rows(fa, loop.iter, ids[0])
+        if rows is None or any(len(r) != len(tg.elts) for r in rows):
+            return None
+        return [t.id for t in tg.elts], rows
+
+    def subst(stmts, names, row):
+        env = dict(zip(names, row))
+
+        class T(ast.NodeTransformer):
+            def visit_Name(self, n):
+                if isinstance(n.ctx, ast.Load) and n.id in env:
+                    return ast.copy_location(copy.deepcopy(env[n.id]), n)
+                return n
+
+        return [T().visit(copy.deepcopy(st)) for st in stmts]
+
+    def block(stmts):
+        out = []
+        for st in stmts:
+            for fld in ("body", "orelse", "finalbody"):
+                if isinstance(getattr(st, fld, None), list) and not isinstance(st, (ast.FunctionDef, ast.AsyncFunctionDef, ast.ClassDef, ast.Lambda)):
+                    setattr(st, fld, block(getattr(st, fld)))
+            for h in getattr(st, "handlers", []) or []:
+                h.body = block(h.body)
+            done = False
+            if isinstance(st, ast.For):
+                orig = origin.get(id(st))
+                rr = rows_of(orig) if orig is not None else None
+                if rr is not None and 0 < len(rr[1]) <= 40:
+                    names, rows = rr
+                    stores = {n.id for b in st.body for n in ast.walk(b) if isinstance(n, ast.Name) and isinstance(n.ctx, (ast.Store, ast.Del))}
+                    jumps = own_jumps(st.body)
+                    if not (stores & set(names)):
+                        if not jumps:
+                            for row in rows:
+                                out += subst(st.body, names, row)
+                            done = True
+                        elif len(st.body) == 1 and isinstance(st.body[0], ast.If) and not st.body[0].orelse and len(jumps) == 1 \
+                                and isinstance(jumps[0], ast.Break) and st.body[0].body[-1] is jumps[0]:
+                            chain = None
+                            for row in reversed(rows):
+                                (rung,) = subst(st.body, names, row)
+                                rung.body = rung.body[:-1] or [ast.copy_location(ast.Pass(), rung)]
+                                rung.orelse = [chain] if chain is not None else []
+                                chain = rung
+                            out.append(chain)
+                            done = True
+            if done:
+                changed[0] = True
+            else:
+                out.append(st)
+        return out
+
+    node2 = copy.deepcopy(fa.node)
+    # rows are resolved on the ORIGINAL loops (they have CFG nodes): pair the copies with their originals
+    origin = {}
+    for a, b in zip(ast.walk(node2), ast.walk(fa.node)):
+        if isinstance(a, ast.For):
+            origin[id(a)] = b
+    node2.body = block(node2.body)
+    if not changed[0]:
+        return fa
+    ast.fix_missing_locations(node2)
+    fi = fa.fi
+    fi2 = FuncInfo(fi.module, node2, fi.qual, fi.cls, fi.parent)
+    fi2.nested = fi.nested
+    return FA(fa.ck, fi2)
+
+
 def _members(fa: FA, e, at, depth=0):
     """ResultType members the expression may denote."""
     if depth > 8:
         raise AnalysisError("%s: tag expression too deep" % fa.qual)
+    hr = _helper_results(fa, e)
+    if hr is not None:
+        out = set()
+        for (v, a_) in hr[1]:
+            out |= _members(hr[0], v, a_, depth + 1)
+        return out
     if isinstance(e, ast.Attribute) and isinstance(e.value, ast.Name) and e.value.id == "ResultType":
         return {e.attr}
     if A.is_none(e):
         return set()  # a `found = None` initial value: None has no .name, so it never becomes a tag
     if isinstance(e, ast.Subscript) and isinstance(e.value, ast.Name) and e.value.id == "ResultType" and A.const_str(e.slice):
         return {A.const_str(e.slice)}
+    if isinstance(e, ast.Subscript) and isinstance(e.value, ast.Name) and e.value.id == "ResultType" and not isinstance(e.slice, ast.Slice):
+        return _tags(fa, e.slice, at, depth + 1)  # the member whose name is the computed string
+    if isinstance(e, ast.Call) and isinstance(e.func, ast.Name) and e.func.id == "getattr" and len(e.args) == 2 and A.norm(e.args[0]) == "ResultType":
+        return _tags(fa, e.args[1], at, depth + 1)
     if isinstance(e, ast.IfExp):
         return _members(fa, e.body, at, depth + 1) | _members(fa, e.orelse, at, depth + 1)
     if isinstance(e, ast.Name):
@@ -609,7 +825,105 @@ def _tags(fa: FA, e, at, depth=0):
         return out
     if isinstance(e, ast.Call) and A.call_attr(e) == "str" and len(e.args) == 1:
         return _tags(fa, e.args[0], at, depth + 1)
+    hr = _helper_results(fa, e)
+    if hr is not None:
+        out = set()
+        for (v, a_) in hr[1]:
+            out |= _tags(hr[0], v, a_, depth + 1)
+        return out
+    # a name glued together from pieces ('array_' + suffix, f'array_{suffix}'): every combination of what the pieces may be
+    parts = A.str_parts(e) if isinstance(e, (ast.BinOp, ast.JoinedStr, ast.Call)) else None
+    if parts and any(k == "expr" for k, _v in parts) and not (len(parts) == 1 and parts[0][1] is e):
+        acc = {""}
+        for (k, v) in parts:
+            vs = {v} if k == "lit" else _tags(fa, v, at, depth + 1)
+            acc = {a + b for a in acc for b in vs}
+            if len(acc) > 400:
+                raise AnalysisError("%s: too many combinations in the tag expression `%s`" % (fa.qual, A.short(e, 50)))
+        return acc
     raise AnalysisError("%s: cannot tell which argument tag `%s` is" % (fa.qual, A.short(e, 50)))
+
+
+def _decoded_tags(ck, da: FA, units):
+    """The argument tags the decoder serves: what the `type` field of the state is compared with (==, in <literal
+    collection>) or looked up in (<literal table>[tag] / .get(tag)) — in decode_arg, or in a helper that is handed the
+    tag (the parameter that receives it stands for the field there)."""
+    dap = _first_param(da, "state")
+    tag_params = {id(da.fi): set()}  # unit -> parameters that hold the tag
+
+    def is_type_field(fu: FA, e, at):
+        x = fu.expand(e, at)
+        if fu is da and _state_key_of(da, x, None, dap) == "type":
+            return True
+        if isinstance(x, ast.Name) and x.id in tag_params.get(id(fu.fi), ()) and all(d.kind == "param" for d in fu.df.reaching(at, x.id)):
+            return True
+        # (a helper handed the whole state reads the field itself)
+        ps = [p for p in fu.fi.params if p not in ("cls", "self")]
+        return fu is not da and bool(ps) and id(fu.fi) in state_params and _state_key_of(fu, x, None, state_params[id(fu.fi)]) == "type"
+
+    state_params = {}
+    by_fi = {id(u.fi): u for u in units}
+    # which helper parameters receive the tag (or the state): follow the calls between the units, to a fixpoint
+    changed = True
+    rounds = 0
+    while changed and rounds < 6:
+        changed = False
+        rounds += 1
+        for fu in units:
+            if fu is not da and id(fu.fi) not in tag_params and id(fu.fi) not in state_params:
+                continue
+            for c in fu.calls():
+                if not fu.nodes(c):
+                    continue
+                try:
+                    cands, how = ck.cg.resolve(c, fu.fi)
+                except Exception:  # noqa
+                    continue
+                if how not in ("typed", "module", "nested") or len(cands) != 1 or id(cands[0]) not in by_fi or cands[0] is da.fi:
+                    continue
+                h = cands[0]
+                given = _call_args(c, [p for p in h.params if p not in ("cls", "self")])
+                if given is None:
+                    continue
+                at = fu.nodes(c)[0]
+                for p_, v_ in given.items():
+                    if is_type_field(fu, v_, at) and p_ not in tag_params.setdefault(id(h), set()):
+                        tag_params[id(h)].add(p_)
+                        changed = True
+                    xv = fu.expand(v_, at)
+                    if isinstance(xv, ast.Name) and ((fu is da and xv.id == dap) or state_params.get(id(fu.fi)) == xv.id) and id(h) not in state_params:
+                        state_params[id(h)] = p_
+                        changed = True
+    tags_in = set()
+    for fu in units:
+        for n in A.walk_body(fu.node):
+            if isinstance(n, ast.Compare) and len(n.ops) == 1 and fu.nodes(n):
+                at = fu.nodes(n)[0]
+                l, r, op = n.left, n.comparators[0], n.ops[0]
+                if isinstance(op, (ast.Eq, ast.NotEq)):
+                    if is_type_field(fu, l, at):
+                        tags_in |= _tags(fu, r, at)
+                    elif is_type_field(fu, r, at):
+                        tags_in |= _tags(fu, l, at)
+                elif isinstance(op, (ast.In, ast.NotIn)) and is_type_field(fu, l, at):
+                    elts = _elements(fu, r, at)
+                    if elts is None:
+                        raise AnalysisError("%s: `%s` tests the argument tag against something other than a literal collection" % (fu.qual, A.short(n, 60)))
+                    for e in elts:
+                        tags_in |= _tags(fu, e, None if e not in list(ast.walk(r)) else at)
+            # TABLE[<tag>] / TABLE.get(<tag>): the tags the literal table is keyed by are the ones this lookup serves
+            look = None
+            if isinstance(n, ast.Subscript) and isinstance(n.ctx, ast.Load) and not isinstance(n.slice, ast.Slice) and fu.nodes(n) and is_type_field(fu, n.slice, fu.nodes(n)[0]):
+                look = n.value
+            elif isinstance(n, ast.Call) and A.call_attr(n) == "get" and isinstance(n.func, ast.Attribute) and 1 <= len(n.args) <= 2 and fu.nodes(n) \
+                    and is_type_field(fu, n.args[0], fu.nodes(n)[0]):
+                look = n.func.value
+            if look is not None:
+                tbl = _static(fu, look, fu.nodes(n)[0])
+                if isinstance(tbl, ast.Dict) and tbl is not look and all(k is not None for k in tbl.keys):
+                    for e in tbl.keys:
+                        tags_in |= _tags(fu, e, None if e not in list(ast.walk(look)) else fu.nodes(n)[0])
+    return tags_in
 
 
 def check_plain_json(ck, R):
@@ -680,7 +994,9 @@ def check(ck):
             if len(ctor) != 1:
                 ck.ob(R2, dec.key(None, "ctor"), False, "decode_%s does not rebuild a %s" % (name, ctor_name), dec.where())
                 continue
-            given = _call_args(ctor[0], params)
+            bound = _bound_args(dec, ctor[0], params)
+            given = {p_: v_ for p_, (v_, _a) in bound.items()} if bound is not None else None
+            given_at = {p_: a_ for p_, (_v, a_) in bound.items()} if bound is not None else {}
             kws = list(given) if given is not None else [k.arg for k in ctor[0].keywords]
             ok2 = given is not None and sorted(kws) == sorted(params)
             ck.ob(R2, dec.key(ctor[0], "ctor-params"), ok2, "%s(%s) is rebuilt with every constructor parameter" % (ctor_name, ", ".join(params)) if ok2 else
@@ -688,12 +1004,15 @@ def check(ck):
             # every param is fed from a distinct state key; every key is consumed
             used = set()
             at = at_of(dec, ctor[0])
-            ctor_by_pair[name] = (dec, given or {}, at)
+            ctor_by_pair[name] = (dec, given or {}, at, given_at)
+            fed_from = {}
             for (p, v) in (given or {}).items():
-                ks = _keys_in_flow(dec, v, at)
+                ks = _keys_in_flow(dec, v, given_at.get(p, at))
+                fed_from[p] = ks
                 used |= ks
                 ck.ob(R2, dec.key(ctor[0], "fed:" + (p or "?")), len(ks) == 1, "%s is restored from %s" % (p, sorted(ks)) if len(ks) == 1 else
                       "%s is not restored from exactly one encoded field (%s)" % (p, sorted(ks)), dec.where(ctor[0]))
+            _check_field_correspondence(ck, R2, enc, d, dec, ctor[0], fed_from, ctor_name)
             ck.ob(R2, dec.key(ctor[0], "all-keys-consumed"), used == dkeys, "every encoded field is consumed" if used == dkeys else
                   "encoded fields %s are read but not passed to the constructor" % sorted(dkeys - used), dec.where(ctor[0]))
             # the encoder reads one attribute of the object per field
@@ -709,10 +1028,14 @@ def check(ck):
             fq = [c for c in dec.calls("from_qualified_name")]
             callee = ck.repo.try_func("reference.FunctionReference.from_qualified_name")
             cparams = [p for p in callee.params if p not in ("self", "cls")] if callee is not None else []
-            given = (_call_args(fq[0], cparams) if len(fq) == 1 else None) or {}
+            bound = (_bound_args(dec, fq[0], cparams) if len(fq) == 1 else None) or {}
+            given = {p_: v_ for p_, (v_, _a) in bound.items()}
+            given_at = {p_: a_ for p_, (_v, a_) in bound.items()}
             okq = len(fq) == 1 and sorted(given) == ["parameter_names", "partial_args", "partial_kwargs", "qualified_name"]
             if len(fq) == 1:
-                ctor_by_pair[name] = (dec, given, at_of(dec, fq[0]))
+                ctor_by_pair[name] = (dec, given, at_of(dec, fq[0]), given_at)
+            if len(fq) == 1:
+                _check_field_correspondence(ck, R2, enc, d, dec, fq[0], {p_: _keys_in_flow(dec, v_, given_at[p_]) for p_, v_ in given.items()}, "the reference")
             ck.ob(R2, dec.key(None, "from-qualified-name"), okq, "the reference is rebuilt from its qualified name, partials and parameter names" if okq else
                   "decode_fn_reference does not pass (qualified_name, partial_args, partial_kwargs, parameter_names)", dec.where())
 
@@ -726,20 +1049,20 @@ def check(ck):
     def restored_alts(name, param):
         if name not in ctor_by_pair:
             return None, []
-        dec, given, at = ctor_by_pair[name]
+        dec, given, at, given_at = ctor_by_pair[name]
         if param not in given:
             return dec, []
-        return dec, [(dec.expand(x, a2), a2) for (x, a2) in alternatives(dec, given[param], at)]
+        return dec, [(dec.expand(x, a2), a2) for (x, a2) in alternatives(dec, given[param], given_at.get(param, at))]
 
-    def is_state_read(dec, e, field):
-        return _state_key_of(dec, e, None, _first_param(dec, "state")) == field
+    def is_state_read(dec, e, field, at=None):
+        return _state_key_of(dec, e, at, _first_param(dec, "state")) == field
 
     # memento time instant / enum by name
     em, t_out = emitted_alts("memento", "time")
     dm, t_in = restored_alts("memento", "time")
     mp = _first_param(em, "memento")
     okt = bool(t_out) and all(isinstance(x, ast.Call) and A.call_attr(x) == "encode_datetime" and len(x.args) == 1 and _is_chain(em, x.args[0], a_, mp, ["time"]) for (x, a_) in t_out) \
-        and bool(t_in) and all(isinstance(x, ast.Call) and A.call_attr(x) == "decode_datetime" and len(x.args) == 1 and is_state_read(dm, x.args[0], "time") for (x, a_) in t_in)
+        and bool(t_in) and all(isinstance(x, ast.Call) and A.call_attr(x) == "decode_datetime" and len(x.args) == 1 and is_state_read(dm, x.args[0], "time", a_) for (x, a_) in t_in)
     ck.ob(R1, em.key(None, "time-codec"), okt, "time goes through the datetime codec both ways" if okt else "memento.time is not encoded/decoded with the datetime codec", em.where())
     ei, rt_out = emitted_alts("invocation_metadata", "resultType")
     _, rs_out = emitted_alts("invocation_metadata", "runtimeSeconds")
@@ -748,9 +1071,9 @@ def check(ck):
     ip = _first_param(ei, "obj")
     okr = bool(rt_out) and all(_is_chain(ei, x, a_, ip, ["result_type", "name"]) for (x, a_) in rt_out) \
         and bool(rs_out) and all(isinstance(x, ast.Call) and not x.args and not x.keywords and _is_chain(ei, x.func, a_, ip, ["runtime", "total_seconds"]) for (x, a_) in rs_out) \
-        and bool(rt_in) and all(isinstance(x, ast.Subscript) and A.norm(x.value) == "ResultType" and is_state_read(di, x.slice, "resultType") for (x, a_) in rt_in) \
+        and bool(rt_in) and all(isinstance(x, ast.Subscript) and A.norm(x.value) == "ResultType" and is_state_read(di, x.slice, "resultType", a_) for (x, a_) in rt_in) \
         and bool(rs_in) and all(isinstance(x, ast.Call) and A.call_attr(x) == "timedelta" and not x.args and len(x.keywords) == 1 and x.keywords[0].arg == "seconds"
-                                and is_state_read(di, x.keywords[0].value, "runtimeSeconds") for (x, a_) in rs_in)
+                                and is_state_read(di, x.keywords[0].value, "runtimeSeconds", a_) for (x, a_) in rs_in)
     ck.ob(R1, ei.key(None, "enum-and-runtime"), okr, "result type travels by name, runtime as seconds" if okr else
           "result type / runtime are not encoded as (name, seconds) and decoded the same way", ei.where())
 
@@ -768,38 +1091,29 @@ def check(ck):
     # ---- R3
     ea = FA(ck, MC + ".encode_arg")
     da = FA(ck, MC + ".decode_arg")
+    from .fresh import class_units
+
+    def own_units(root: FA):
+        """The function and the helpers its body was split into (the codec's other public encoders / decoders are units of their own)."""
+        out = []
+        for fi_ in class_units(ck, root):
+            if fi_ is not root.fi and fi_.cls is root.fi.cls and fi_.parent is None and fi_.name.startswith(("encode_", "decode_")):
+                continue
+            out.append(root if fi_ is root.fi else FA(ck, fi_))
+        return out
+
     tags_out = set()
     shapes_ok = True
-    for dd in [n for n in A.walk_body(ea.node) if _dict_items(n) is not None]:
-        items = _dict_items(dd)
-        ks = [k for k, _ in items]
-        if "type" in ks and ea.nodes(dd):
-            emitted |= {k for k in ks if k is not None}
-            if not set(ks) <= {"type", "value"}:
-                shapes_ok = False
-            tags_out |= _tags(ea, items[ks.index("type")][1], ea.nodes(dd)[0])
-    tags_in = set()
-    dap = _first_param(da, "state")
-
-    def is_type_field(e, at):
-        x = da.expand(e, at)
-        return _state_key_of(da, x, None, dap) == "type"
-
-    for n in A.walk_body(da.node):
-        if isinstance(n, ast.Compare) and len(n.ops) == 1 and da.nodes(n):
-            at = da.nodes(n)[0]
-            l, r, op = n.left, n.comparators[0], n.ops[0]
-            if isinstance(op, (ast.Eq, ast.NotEq)):
-                if is_type_field(l, at):
-                    tags_in |= _tags(da, r, at)
-                elif is_type_field(r, at):
-                    tags_in |= _tags(da, l, at)
-            elif isinstance(op, (ast.In, ast.NotIn)) and is_type_field(l, at):
-                elts = _elements(da, r, at)
-                if elts is None:
-                    raise AnalysisError("%s: `%s` tests the argument tag against something other than a literal collection" % (da.qual, A.short(n, 60)))
-                for e in elts:
-                    tags_in |= _tags(da, e, None if e not in list(ast.walk(r)) else at)
+    for eu_ in own_units(ea):
+        for dd in [n for n in A.walk_body(eu_.node) if _dict_items(n) is not None]:
+            items = _dict_items(dd)
+            ks = [k for k, _ in items]
+            if "type" in ks and eu_.nodes(dd):
+                emitted |= {k for k in ks if k is not None}
+                if not set(ks) <= {"type", "value"}:
+                    shapes_ok = False
+                tags_out |= _tags(eu_, items[ks.index("type")][1], eu_.nodes(dd)[0])
+    tags_in = _decoded_tags(ck, da, own_units(da))
     ck.ob(R3, ea.key(None, "arg-shape"), shapes_ok, "arguments are {type, value} objects" if shapes_ok else
           "an argument encoding has fields other than type/value", ea.where())
     ck.ob(R3, da.key(None, "tags"), tags_out == tags_in and FN_REF_TAG in tags_out, "%d argument tags agree (incl. the function-reference tag)" % len(tags_out) if tags_out == tags_in and FN_REF_TAG in tags_out else
@@ -828,9 +1142,9 @@ def check(ck):
         dec = FA(ck, "%s.decode_%s" % (MC, name))
         n = 0
         if name in ctor_by_pair:
-            _, given, at = ctor_by_pair[name]
+            _, given, at, given_at = ctor_by_pair[name]
             for p in cparams_:
-                vals = [(x, a2) for (x, a2) in value_cases(dec, given[p], at) if not A.is_none(x)] if p in given else []
+                vals = [(x, a2) for (x, a2) in value_cases(dec, given[p], given_at.get(p, at)) if not A.is_none(x)] if p in given else []
                 if vals and all(_calls_in_flow(dec, x, a2, "decode_arg") for (x, a2) in vals):
                     n += 1
         ck.ob(R3, dec.key(None, "typed-args"), n == want, "all %d argument collections use %s" % (want, "decode_arg") if n == want else
@@ -846,8 +1160,17 @@ def check(ck):
 
     # ---- R5
     pairs = repo_subclass_pairs(ck)
-    lad = extract_ladder(ea.node)
-    n = check_ladder_order(ck, R5, ea, lad, pairs, "wire-encode")
+    # (a dispatch written as a loop over a literal table of types is decided as the if-chain it stands for; a part of the
+    # dispatch moved into a helper of the codec — `tag = cls._scalar_tag(obj)` — is decided where it is now)
+    from .fresh import class_units as _listing_units
+    n = 0
+    for fi_ in _listing_units(ck, ea):
+        if fi_ is not ea.fi and fi_.cls is ea.fi.cls and fi_.parent is None and fi_.name.startswith(("encode_", "decode_")):
+            continue  # the other public encoders are not part of this dispatch
+        eu = _unrolled(ea if fi_ is ea.fi else FA(ck, fi_))
+        lad = extract_ladder(eu.node)
+        if lad:
+            n += check_ladder_order(ck, R5, eu, lad, pairs, "wire-encode")
     ck.need(n >= 2, "encode_arg ladder: bool/int and datetime/date not comparable (%d)" % n)
     ck.run(check_typed_identity, ck, "C11.R6", ("serialization", "reference"))
     ck.run(check_enum_distinct, ck, "C11.R3")
